@@ -351,9 +351,13 @@ namespace Pistache
         ResponseStream& operator<<(ResponseStream& stream, const T& val)
         {
             Size<T> size;
+            const size_t len = size(val);
+            // A chunk of size zero is the last-chunk marker, see write()
+            if (len == 0)
+                return stream;
 
             std::ostream os(&stream.buf_);
-            os << std::hex << size(val) << crlf;
+            os << std::hex << len << crlf;
             os << val << crlf;
             if (!os)
             {
